@@ -115,7 +115,8 @@ func main() {
 				r.CapHit("inotify unavailable: 'never opened' was only checked through merged content (decoy markers)")
 			}
 			for _, s := range res.Samples {
-				if leg == "grammar" || leg == "include" {
+				// a few written-out cases per leg (the evidence keeps six in total)
+				if (leg == "grammar" && res.Shard == 0) || leg == "include" || ((leg == "nearmiss" || leg == "bytes") && res.Shard == 0 && s == res.Samples[0]) {
 					r.Sample(map[string]any{"leg": leg, "text": s})
 				}
 			}
@@ -165,7 +166,7 @@ func main() {
 
 // legBudget: internal deadline of one sharded leg (a cap, never an oracle). -budget scales all of them.
 func legBudget(r *vlib.Run, leg string) time.Duration {
-	q, t := 150*time.Second, 600*time.Second
+	q, t := 300*time.Second, 600*time.Second
 	if leg == "grammar" {
 		t = 1500 * time.Second
 	}
